@@ -122,6 +122,10 @@ def h_response(ctx, idx, outcome):
                       key=tag + "/numeric-marker")
             label = "marker"
     elif base is C.BitmapResponse:
+        # a bitmap response is a generic response as far as .value goes: the frame itself on a clean answer
+        # (whatever bits are set - also the ones a subclass calls "error"), MissingResponse / ResponseError
+        # where the class cannot tolerate a missing / garbled answer
+        _generic_value(ctx, st, val, raw, outcome, expected, tolerant, tag)
         label = _bitmap(ctx, cls, r, raw, v, outcome, tag)
     elif base is C.EnumResponse:
         enum = cls.enumerator._real if hasattr(cls.enumerator, "_real") else cls.enumerator
@@ -168,21 +172,7 @@ def h_response(ctx, idx, outcome):
                          key=tag + "/enum-undefined-marker:%s" % (val,))
                 label = "marker"
     else:
-        # generic response: hands back the frame itself
-        if outcome == "none":
-            if expected:
-                ctx.prove(st == "exc" and isinstance(val, MissingResponse),
-                          "missing answer not reported with MissingResponse", key=tag + "/generic-missing")
-            else:
-                ctx.prove(st == "ok" and val is None, "missing answer gave %r" % (val,),
-                          key=tag + "/generic-none")
-        elif outcome == "error" and not tolerant:
-            ctx.prove(st == "exc" and isinstance(val, ResponseError),
-                      "garbled answer not reported with ResponseError: %r" % (val,),
-                      key=tag + "/generic-error")
-        else:
-            ctx.prove(st == "ok" and val is raw, "generic value is not the frame itself: %r" % (val,),
-                      key=tag + "/generic-frame")
+        _generic_value(ctx, st, val, raw, outcome, expected, tolerant, tag)
         label = "generic"
 
     # ---- text
@@ -203,6 +193,24 @@ def h_response(ctx, idx, outcome):
                 ctx.prove(st == "ok", "%s raised %r on a clean frame" % (attr, x),
                           key=tag + "/derived:" + attr)
     return "%s %s" % (outcome, label)
+
+
+def _generic_value(ctx, st, val, raw, outcome, expected, tolerant, tag):
+    """generic response: hands back the frame itself"""
+    if outcome == "none":
+        if expected:
+            ctx.prove(st == "exc" and isinstance(val, MissingResponse),
+                      "missing answer not reported with MissingResponse", key=tag + "/generic-missing")
+        else:
+            ctx.prove(st == "ok" and val is None, "missing answer gave %r" % (val,),
+                      key=tag + "/generic-none")
+    elif outcome == "error" and not tolerant:
+        ctx.prove(st == "exc" and isinstance(val, ResponseError),
+                  "garbled answer not reported with ResponseError: %r" % (val,),
+                  key=tag + "/generic-error")
+    else:
+        ctx.prove(st == "ok" and val is raw, "generic value is not the frame itself: %r" % (val,),
+                  key=tag + "/generic-frame")
 
 
 def _bitmap(ctx, cls, r, raw, v, outcome, tag):
